@@ -59,7 +59,7 @@ def producer_of(du, pk, depth=0):
             if rv["k"] == "use" and rv["ops"][0].get("k") == "const":
                 return "const"
             return "expr:" + rv["k"]
-    return "place:" + fmt_place(du.fn, c)
+    return "place:" + fmt_place(du.fn, c, stable=True)
 
 
 class Inventory:
@@ -130,7 +130,11 @@ class Inventory:
                 kind = t["kind"]
                 if not kind.startswith(ASSERT_KINDS):
                     continue
-                s = Site(fn, bid, "assert", kind, self._assert_desc(du, t), sp["file"], sp["line"], sp["exp"])
+                # the operand type is part of the site identity: widening/narrowing an accumulator changes the site
+                oty = None
+                for o in t.get("ops", []):
+                    oty = oty or _op_ty(fn, o)
+                s = Site(fn, bid, "assert", kind + (":" + oty if oty else ""), self._assert_desc(du, t), sp["file"], sp["line"], sp["exp"])
                 self._classify_assert(s, fn, du, g, t, bid)
                 out.append(s)
         # ordinals among equal (kind, what, producer) in source order
@@ -297,7 +301,7 @@ class Inventory:
                 if v[0] == "call":
                     parts.append("call:" + short(v[1]))
                 elif v[0] == "place":
-                    parts.append("place:" + fmt_place(du.fn, v[1]))
+                    parts.append("place:" + fmt_place(du.fn, v[1], stable=True))
                 elif v[0] == "const":
                     parts.append("const %s" % (v[1],))
                 else:
